@@ -111,6 +111,8 @@ def standard_run(out, pid, profiles, monitor_names, nontrivial, rule, modes=None
     n = int(n * out.boost)
     for prof, share in profiles:
         jobs = make_jobs(rnd, max(1, int(n * share)), prof, modes=modes)
+        if out.tier != "quick":
+            jobs += make_jobs(rnd, max(1, int(n * share) // 10), prof, modes=modes, big=True)     # 2-5 workers, 13-34 tests
         if extra_jobs:
             jobs += extra_jobs(rnd, prof, out.tier)
         run_sessions(out, corr, rnd, jobs, monitor_names, f"sessions({prof})", nontrivial=nontrivial, skip_sig=skip_sig)
